@@ -36,9 +36,9 @@ KQuickConfigs ==
    [alpha |-> {"a", "t", "n"},      n |-> 6, ks |-> {2, 3}],
    [alpha |-> {"c", "u", "r"},      n |-> 5, ks |-> {2, 3, 4}]}
 KThoroughConfigs ==
-  {[alpha |-> {"a", "c", "g", "t"}, n |-> 7, ks |-> {2, 3, 4, 5, 6}],
-   [alpha |-> {"a", "t", "n"},      n |-> 8, ks |-> {2, 3, 4}],
-   [alpha |-> {"a", "c", "g", "u", "y"}, n |-> 5, ks |-> {2, 3, 4, 5}]}
+  {[alpha |-> {"a", "c", "g", "t"}, n |-> 8, ks |-> {2, 3, 4, 5, 6}],
+   [alpha |-> {"a", "t", "n"},      n |-> 9, ks |-> {2, 3, 4}],
+   [alpha |-> {"a", "c", "g", "u", "y"}, n |-> 6, ks |-> {2, 3, 4, 5}]}
 
 KSeqsUpTo(S, n) == UNION {[1..m -> S] : m \in 0..n}
 
@@ -108,6 +108,8 @@ FourMerRefines ==
      /\ \A e \in FourMerTable(s) : e[2] = FourMerCount(s, e[1]) /\ e[2] > 0
      /\ \A c \in 0..255 : (FourMerCount(s, c) > 0) <=> (\E e \in FourMerTable(s) : e[1] = c)
      /\ FoldLeft(LAMBDA a, e : a + e[2], 0, SetToSeq(FourMerTable(s))) = (IF Len(s) >= 4 THEN Len(s) - 3 ELSE 0)
+     /\ FourMerCommon(s, s) = (IF Len(s) >= 4 THEN Len(s) - 3 ELSE 0)
+     /\ FourMerCommon(s, KmerRevCompSeq(s)) <= FourMerCommon(s, s)
 
 ---------------------------------------------------------------------------
 (* one line per (s, k): keys as letter strings (k-1 letters in sparse mode), their KmerAsString *)
